@@ -181,6 +181,18 @@ FIRST_RUN_MISSED = {  # seeded changes the checks did NOT catch when first confr
     "C17-19": "the metadata rule was skipped; its two queries must at least agree",
     "C17-20": "validity after insertion was judged by the DFA only; it is now also judged by the Rule object that suggested the index (which validated the incomplete parent, fail-fast, before)",
     "C20-20": "no CDATA section next to other text",
+    "C02-21": "strings with a Z that is not the last character were left unspecified by the time recogniser; they are must-reject now (no reading of ISO 8601 has anything after the UTC designator)",
+    "C03-21": "attribute values were always strings; False / True (equal to the rule's own flag, to 0 / 1) are among the unlisted values now",
+    "C07-21": "no node binding two prefixes to one URI",
+    "C07-22": "no element called eml below the root; below the root the EML exporter must write plain names, plain attributes and no namespace declarations",
+    "C08-21": "qualified attribute local names were plain words; names with - . _ and a non-ASCII letter were added",
+    "C08-22": "no text that contains ]]> once parsed",
+    "C09-21": "all nodes of one name held the very same str object (a literal); names are built at run time now, equal but distinct objects",
+    "C09-22": "no shift with something that is not a Shift as direction among the failing edits",
+    "C11-21": "attribute / extras values were always text; a base with numbers, booleans and None was added",
+    "C15-22": "the reference took 'passes single-node validation' from validate.node alone; that a metadata element holds at most one child is now known to the reference independently",
+    "C17-22": "after validating, only one question was asked per parent; the child is now inserted where suggested and the next question asked on the same Rule object",
+    "C19-21": "contents were always strings; a numberOfRecords / size of 0 and an authentication of False go through the setter now (and the oracle reads a value as present when its text is non-empty)",
 }
 NOT_DETECTED_BY_DESIGN = {"C19-5", "C09-8"}
 ids = sys.argv[1:] or sorted(os.listdir(os.path.join(HERE, "seeded")))
